@@ -546,7 +546,18 @@ func (h *hist) genLCA() *lcaBase {
 var lcaPerturbations = []string{
 	"timestamp+1ns", "timestamp-1s", "totalpower+1", "totalpower-1", "byz-drop-last", "byz-add-extra", "byz-power+1", "byz-swap",
 	"all-sigs-corrupted", "conflicting-is-canonical", "coalition-below-two-thirds", "header-changed-after-signing",
-	"wrong-chainid", "same-height-invalid-header", "common-height-1",
+	"wrong-chainid", "same-height-invalid-header", "common-height-1", "trusted-below-one-third",
+}
+
+// pickLCAPerturbation: uniform, except that the two under-signed shapes (less
+// than 2/3 of the conflicting set, less than 1/3 of the common set) get a
+// third of the draws: they are the ones a forged total voting power could turn
+// into admissible evidence.
+func (h *hist) pickLCAPerturbation() string {
+	if h.r.Intn(3) == 0 {
+		return []string{"coalition-below-two-thirds", "trusted-below-one-third"}[h.r.Intn(2)]
+	}
+	return lcaPerturbations[h.r.Intn(len(lcaPerturbations))]
 }
 
 func (h *hist) cloneLCA(e *types.LightClientAttackEvidence) *types.LightClientAttackEvidence {
@@ -627,6 +638,38 @@ func (h *hist) perturbLCA(b *lcaBase, name string) *types.LightClientAttackEvide
 		}
 		nb := *b
 		nb.header.AppHash = h.rand32()
+		e = h.assembleLCA(&nb, h.ch.ChainID)
+	case "trusted-below-one-third":
+		// a lunatic block fully signed by its own (mostly invented) validator set, in
+		// which validators of the common set hold at most 1/3 of the common power
+		if b.hc == b.hx {
+			return nil
+		}
+		nb := *b
+		nb.kind = "lunatic-phantom"
+		var members []*types.Validator
+		var got int64
+		total := sumPower(b.common)
+		for _, i := range h.r.Perm(b.common.Size()) {
+			v := b.common.Validators[i]
+			if (got+v.VotingPower)*3 <= total && h.r.Intn(3) != 0 {
+				members = append(members, types.NewValidator(v.PubKey, v.VotingPower))
+				got += v.VotingPower
+			}
+		}
+		np := 1 + h.r.Intn(3)
+		for i := 0; i < np; i++ {
+			k := ed25519.GenPrivKeyFromSecret([]byte(fmt.Sprintf("c11-phantom-%d-%d", h.idx, len(h.phantom))))
+			h.phantom[string(k.PubKey().Address())] = k
+			members = append(members, types.NewValidator(k.PubKey(), 1+h.r.Int63n(total+1)))
+		}
+		nb.confVals = types.NewValidatorSet(members)
+		nb.header.ValidatorsHash = nb.confVals.Hash()
+		nb.header.AppHash = h.rand32()
+		nb.flags = make([]types.BlockIDFlag, nb.confVals.Size())
+		for i := range nb.flags {
+			nb.flags[i] = types.BlockIDFlagCommit
+		}
 		e = h.assembleLCA(&nb, h.ch.ChainID)
 	case "common-height-1":
 		if h.ch.Hist[b.hc-1] == nil {
